@@ -267,21 +267,22 @@ func cdRoundTripDiff(e, p *girc.Event) string {
 // ---- generators ----------------------------------------------------------------------
 
 var (
-	cdCmdPool    = []string{"PRIVMSG", "NOTICE", "001", "005", "privmsg", "CAP", "Ping", "JOIN", "MODE", "TAGMSG", "xy", "353"}
-	cdCmdOdd     = []string{"", "A", ":x", "@x", "PRIV MSG", "caf\xc3\xa9", "\xc4\xb1d", "a\xc5\xbf", "\xffQ", "pr\tiv", "q\x00", "12", "P\r\nQ"}
-	cdWordPool   = []string{"#chan", "nick", "a", "CHANLIMIT=#:120", "x:y", "b\tc", "d\xc2\xa0e", "f\xe2\x80\x83g", "h\vi", "+o", "*", "caf\xc3\xa9", "::", "a:", "\x01ACTION", "k=v", "@at", "!bang", "$", "0"}
-	cdWordOdd    = []string{"", ":lead", "sp ace", "nul\x00", "cr\rlf\n", "\xff", "\xe2\x82", " "}
-	cdLastPool   = []string{"", "hello world", ":colon", "plain", "tab\there", "nb\xc2\xa0sp", "em\xe2\x80\x83sp", "v\vt", " lead", "trail ", "  ", ": x", "a :b :c", ":", "::", "x:y", "\x01ACTION waves\x01", "caf\xc3\xa9 \xe2\x82\xac"}
-	cdLastOdd    = []string{"cr\rlf\n", "\r", "nul\x00x", "\xff\xfe", "a\xe2\x82", "\nQUIT :x"}
-	cdNamePool   = []string{"nick", "irc.example.org", "n[i]ck", "N", "caf\xc3\xa9", "a-b", "*"}
-	cdIdentPool  = []string{"", "user", "~u", "u!x", "i.d"}
-	cdHostPool   = []string{"", "host.example", "1.2.3.4", "::1", "h/cloak", "a:b"}
-	cdSrcOdd     = []string{" x", "a@b", "a!b", "!", "@", "\xff", "x\r", "a b"}
-	cdKeyPool    = []string{"a", "time", "account", "msgid", "example.com/ddd", "a.b/c", "+client", "+example.com/foo", "draft/label", "k-1", "k_2", "z", "B"}
-	cdKeyOdd     = []string{"", "+", "a b", "a=b", "k;", "caf\xc3\xa9", "@k", "a\x00", "++"}
-	cdRawValPool = []string{"", "v", "bbb", `a\sb`, `\:\s\\\r\n`, `\\\\`, `\\s`, "2019-02-21T20:12:03.000Z", "2011-10-19T16:40:51.620Z", "=eq=", "x/y", "~"}
-	cdRawValOdd  = []string{`a\`, `\x`, `\`, `a\bc`, "sp ace", "se;mi", "caf\xc3\xa9", "\x01", `\\\`, "\xff", "a\rb"}
-	cdPlainVals  = []string{"", "x", "a b", "a;b", `a\b`, "cr\rlf\n", `; \` + "\r\n", `\\`, `\s`, "  ", ";;", "caf\xc3\xa9", "tab\t", "plain-value_1", `trail\`}
+	cdCmdPool       = []string{"PRIVMSG", "NOTICE", "001", "005", "privmsg", "CAP", "Ping", "JOIN", "MODE", "TAGMSG", "xy", "353"}
+	cdCmdOdd        = []string{"", "A", ":x", "@x", "PRIV MSG", "caf\xc3\xa9", "\xc4\xb1d", "a\xc5\xbf", "\xffQ", "pr\tiv", "q\x00", "12", "P\r\nQ"}
+	cdWordPool      = []string{"#chan", "nick", "a", "CHANLIMIT=#:120", "x:y", "b\tc", "d\xc2\xa0e", "f\xe2\x80\x83g", "h\vi", "+o", "*", "caf\xc3\xa9", "::", "a:", "\x01ACTION", "k=v", "@at", "!bang", "$", "0"}
+	cdWordOdd       = []string{"", ":lead", "sp ace", "nul\x00", "cr\rlf\n", "\xff", "\xe2\x82", " "}
+	cdLastPool      = []string{"", "hello world", ":colon", "plain", "tab\there", "nb\xc2\xa0sp", "em\xe2\x80\x83sp", "v\vt", " lead", "trail ", "  ", ": x", "a :b :c", ":", "::", "x:y", "\x01ACTION waves\x01", "caf\xc3\xa9 \xe2\x82\xac"}
+	cdLastOdd       = []string{"cr\rlf\n", "\r", "nul\x00x", "\xff\xfe", "a\xe2\x82", "\nQUIT :x"}
+	cdNamePool      = []string{"nick", "irc.example.org", "n[i]ck", "N", "caf\xc3\xa9", "a-b", "*"}
+	cdIdentPool     = []string{"", "user", "~u", "u!x", "i.d"}
+	cdHostPool      = []string{"", "host.example", "1.2.3.4", "::1", "h/cloak", "a:b"}
+	cdSrcOdd        = []string{" x", "a@b", "a!b", "!", "@", "\xff", "x\r", "a b"}
+	cdKeyPool       = []string{"a", "time", "account", "msgid", "example.com/ddd", "a.b/c", "+client", "+example.com/foo", "draft/label", "k-1", "k_2", "z", "B"}
+	cdKeyOdd        = []string{"", "+", "a b", "a=b", "k;", "caf\xc3\xa9", "@k", "a\x00", "++"}
+	cdRawValPool    = []string{"", "v", "bbb", `a\sb`, `\:\s\\\r\n`, `\\\\`, `\\s`, `\\n`, `\\r`, `\\:`, `a\\sb\\:c\\\\n`, `\\\s`, `x\\`, "2019-02-21T20:12:03.000Z", "2011-10-19T16:40:51.620Z", "=eq=", "x/y", "~"}
+	cdRawValOdd     = []string{`a\`, `\x`, `\`, `a\bc`, "sp ace", "se;mi", "caf\xc3\xa9", "\x01", `\\\`, "\xff", "a\rb"}
+	cdBackslashVals = []string{`\`, `\\`, `\\\`, `\s`, `\n`, `\r`, `\:`, `\\s`, `\\n`, `C:\new\share`, `C:\report\sales`, `a\:b`, `x\`, `\x`, `\s\n\r\:\\`, `n\s`, `\\\\s`}
+	cdPlainVals     = []string{"", "x", "a b", "a;b", `a\b`, "cr\rlf\n", `; \` + "\r\n", `\\`, `\s`, "  ", ";;", "caf\xc3\xa9", "tab\t", "plain-value_1", `trail\`}
 )
 
 func cdPickS(r *rand.Rand, xs []string) string { return xs[r.Intn(len(xs))] }
@@ -705,6 +706,24 @@ func cdTagsSetRun(c Case, initNil bool) Result {
 			}
 		}
 	}
+	if t != nil && len(t) > 0 && oracle == "" {
+		// the same values must come back after serialising an event and parsing it
+		e := &girc.Event{Command: "TAGMSG", Params: []string{"#c"}, Tags: t}
+		p := girc.ParseEvent(e.String())
+		if p == nil {
+			oracle = "tags-get-after-roundtrip: event with Set tags does not parse back"
+		} else {
+			for wk, wv := range want {
+				if got, ok := p.Tags.Get(wk); !ok || got != wv {
+					oracle = "tags-get-after-roundtrip: Get after String/ParseEvent differs from the value given to Set"
+					break
+				}
+			}
+			if oracle == "" && len(p.Tags) != len(want) {
+				oracle = "tags-get-after-roundtrip: key set changed"
+			}
+		}
+	}
 	gets := []string{}
 	for i := 0; i+1 < len(ops); i += 2 {
 		var g *string
@@ -731,7 +750,11 @@ func cdGenSetOps(r *rand.Rand) []string {
 			k = cdPickS(r, cdKeyOdd)
 		}
 		var v string
-		switch r.Intn(5) {
+		switch r.Intn(7) {
+		case 5: // backslash only: literal backslashes before each of : s \ r n, no other escapable byte
+			v = cdPickS(r, cdBackslashVals)
+		case 6:
+			v = RandBytes(r, 1+r.Intn(8), `\\\:snrab`)
 		case 0:
 			v = cdPickS(r, cdPlainVals)
 		case 1:
@@ -762,6 +785,7 @@ func init() {
 			}
 			out = append(out,
 				Case{"S", "m", "a", "b"},
+				Case{"S", "m", "p", `C:\new\share`, "q", `\s`, "r", `\\n`, "s", `\`, "t", `\:\r`},
 				Case{"S", "m", "a", "; \\\r\n", "b", "", "a", "x"},
 				Case{"S", "m", "bad key", "v", "k", "caf\xc3\xa9", "k", "\x00"},
 				Case{"S", "m", "k", strings.Repeat("v", 4091)},
